@@ -10,8 +10,49 @@ EXPLANATION = (
     "all later work. Plus: transaction_mut rolls back on the closure's Err edge.")
 DECIDED = ["R32 PAIR(error): begin/commit pairing on every error exit (one key per bracketing function)",
            "R32b transaction_mut calls rollback when the closure fails",
+           "R32c the mirrored storage reports the length of the copy it updates last (order read from write / resize)",
            "R04c the compaction pass is one storage transaction ending in truncate + clear_free (shared with C04)"]
 UNDECIDED = ["state of in-memory tables vs file after the fault (a correct abort must also undo in-memory structures)"]
+
+
+MM = "<agdb::storage::file_storage_memory_mapped::FileStorageMemoryMapped as agdb::storage::StorageData>::"
+
+
+def mirror_length_rule(ctx, rule="R32c"):
+    """The memory-mapped storage keeps two copies and updates them one after the other in write() / resize(); a failure
+    of the second update leaves the first copy changed.  Its len() therefore has to come from the copy that is updated
+    LAST (then a failed write cannot have changed the reported length, and the next append does not start beyond the
+    real end of the file).  The order is read from write() / resize(), not frozen."""
+    def members(b):
+        out = []
+        for i, t in cfg.calls(b):
+            if not t["a"] or not cfg.op_place(t["a"][0]):
+                continue
+            r0, f = cfg.origin(b, cfg.op_place(t["a"][0]))
+            if r0 == 1 and f and f[0] in (".file", ".memory"):
+                out.append((i, f[0][1:]))
+        return out
+    lb = ctx.anchor(rule, MM + "len")
+    last_of = {}
+    for fn in ("write", "resize"):
+        b = ctx.anchor(rule, MM + fn)
+        if not b:
+            return
+        ms = members(b)
+        # the member none of the other member calls can follow
+        final = [m for i, m in ms if not any(j != i and j in cfg.reachable(b, cfg.succs(b, i))[0] for j, m2 in ms)]
+        last_of[fn] = final[0] if len(final) == 1 and len({m for i, m in ms}) == 2 else None
+    if not lb:
+        return
+    src = {m for i, m in members(lb)}
+    auth = last_of["write"] if last_of["write"] == last_of["resize"] else None
+    ok = auth is not None and src == {auth}
+    ctx.ob(rule, "FileStorageMemoryMapped::len:from-the-copy-updated-last", ok,
+           "write() / resize() update `%s` last and len() reports `self.%s.len()`" % (auth, auth) if ok else
+           "FileStorageMemoryMapped: write() updates %s last, resize() updates %s last, but len() is taken from %s: after a "
+           "failed update of the second copy the storage reports a length the file does not have (the failed write has an "
+           "effect, later appends land beyond the end of the file)" % (last_of["write"], last_of["resize"], sorted(src) or "?"),
+           lb.where)
 
 
 def run(ctx):
@@ -37,4 +78,5 @@ def run(ctx):
     # a write failure during the close-time compaction must undo the whole pass (R04c, shared with C04)
     from rules import C04
     C04.optimize_rule(ctx)
+    mirror_length_rule(ctx)
     return 0
